@@ -5,6 +5,7 @@ the two splitting conditions of the lexer's number branch)."""
 from __future__ import annotations
 
 import ast
+import itertools
 
 from ..core import AnalysisError, dotted
 from ..lexlaws import law_number_splitting, value_languages_probe
@@ -49,6 +50,92 @@ def integer_only_path(tmod, line):
                 child = cur
                 cur = getattr(cur, "_parent", None)
     return False
+
+
+INEXACT_TEXT = ("nsimplify(", "Float(", "float(", "sympy.N(", "nfloat(",
+                "parse_expr(", "eval(")
+
+
+def emission_elsewhere(chk, tmod, number_arm, TF):
+    """Program text handed to an inexact number constructor anywhere else in
+    the transpiler (a shortcut that emits literals itself) is the same
+    defect as in the NUMBER arm."""
+    inside = {id(n) for n in ast.walk(number_arm)}
+    n_fs = 0
+    for fn in tmod.functions.values():
+        for js in ast.walk(fn):
+            if not isinstance(js, ast.JoinedStr) or id(js) in inside:
+                continue
+            n_fs += 1
+            prev = ""
+            for v in js.values:
+                if isinstance(v, ast.Constant) and isinstance(v.value, str):
+                    prev = v.value
+                    continue
+                hit = next((t for t in INEXACT_TEXT
+                            if prev.rstrip("\"'").endswith(t)), None)
+                if hit:
+                    chk.ob("C05.exact-constructor",
+                           f"{fn.name}:{hit[:-1]} on "
+                           f"{' '.join(ast.unparse(v.value).split())[:40]}",
+                           False,
+                           f"generated code applies {hit[:-1]} to program "
+                           "text outside the NUMBER arm: a decimal literal "
+                           "emitted this way goes through a float and a "
+                           "closed-form guess (rational=True does not "
+                           "prevent it)", TF, js.lineno,
+                           witness="⟨7|0.333333333333333333⟩ holds 1/3")
+                prev = ""
+    chk.unit("f-strings of the transpiler outside the NUMBER arm", n_fs)
+
+
+def spells_literal(chk, repo, it, lp, TF):
+    """The text handed to the exact constructor spells the literal: the
+    NUMBER arm is interpreted on every real literal over {0, 7, .} of length
+    <= 4 that the lexer yields as one token (and a 25+18 digit one); the
+    string constant in the emitted code, read as a decimal, must equal the
+    literal read as a decimal (a lone point is one half)."""
+    from fractions import Fraction
+    from ..templates import Gen
+    gen = Gen(repo, it)
+    lits = ["".join(t) for ln in range(1, 5)
+            for t in itertools.product("07.", repeat=ln)]
+    lits += ["1234567890123456789012345.000000000000000001", "1093", "10.0",
+             "0.30000000000000004"]
+    n = 0
+    bad = None
+    for v in lits:
+        if v.count(".") > 1:
+            continue
+        r = lp.run(v)
+        if not (isinstance(r, list) and r == [("NUMBER", v)]):
+            continue
+        want = Fraction(1, 2) if v == "." else Fraction(
+            v if v[-1] != "." else v + "0")
+        try:
+            text = gen.transpile_token(gen.token("NUMBER", v), 0)
+            tree = ast.parse(text)
+        except Exception:  # noqa: BLE001 - C02 reports generator failures
+            continue
+        consts = [c.value for c in ast.walk(tree)
+                  if isinstance(c, ast.Constant) and isinstance(c.value, str)]
+        n += 1
+        if len(consts) != 1:
+            continue  # another emission scheme: the constructor rule decides
+        try:
+            got = Fraction(consts[0] if consts[0][-1:] != "."
+                           else consts[0] + "0")
+        except (ValueError, ZeroDivisionError):
+            got = None
+        if got != want and bad is None:
+            bad = (v, consts[0])
+    chk.ob("C05.emitted-text-spells-literal", "transpile_token/NUMBER",
+           bad is None,
+           (f"the literal {bad[0]!r} reaches the constructor as "
+            f"{bad[1]!r}, which spells another number") if bad else "", TF,
+           witness=bad[0] if bad else None,
+           sample={"literals interpreted": n})
+    chk.floor("real literals interpreted through the NUMBER arm", n, 40)
 
 
 def check(chk, repo, tier):
@@ -197,6 +284,9 @@ def check(chk, repo, tier):
            "and '°'", LF, sample=lang.describe() if lang else None)
     n = law_number_splitting(chk, lp, "C05", LF)
     chk.unit("digit strings lexed (length <= 5 over 0 7 . °)", n)
+
+    spells_literal(chk, repo, it, lp, TF)
+    emission_elsewhere(chk, tmod, arm, TF)
 
     chk.explanation = (
         "Clause-level: on the NUMBER lowering path (template extracted in the "
